@@ -370,6 +370,10 @@ func (c38) NewRun(plan *simrt.Source, job *harn.Job) harn.Run {
 		}
 		r.msgs = append(r.msgs, m)
 	}
+	if r.mode == 0 && !r.long && plan.Chance(150) {
+		// the stream ends with a body well beyond any internal buffer size
+		r.msgs[len(r.msgs)-1].Params = bigJSON(9000+plan.Draw(60000), plan.Draw(36))
+	}
 	r.work = append(r.work, []string{"mode: round trip under chunking + truncation at every offset", "mode: writer failure at a byte offset + context cancellation", "mode: malformed frames", "mode: byte corruption"}[r.mode])
 	h := uint64(14695981039346656037) ^ uint64(r.mode)
 	for _, m := range r.msgs {
@@ -522,6 +526,14 @@ func (r *c38run) RunSeq(sched *simrt.Source, keepLog bool) *simrt.Result {
 			out := readBack(rd, len(r.msgs)+1)
 			res.Faults["seeded-chunking"]++
 			r.expectPrefix("whole stream, seeded chunking", out, r.msgs, len(r.msgs), true)
+		}
+		// (a') a transport that hands over everything it has in one call and reports
+		// the end of the stream together with the last bytes
+		{
+			rd := &simReader{data: stream, endErr: io.EOF, eofWith: true}
+			out := readBack(rd, len(r.msgs)+1)
+			res.Faults["all-at-once-with-eof"]++
+			r.expectPrefix("whole stream delivered greedily, EOF together with the last bytes", out, r.msgs, len(r.msgs), true)
 		}
 		// (b) every single split position (exhaustive for this stream) up to a bound
 		bound := len(stream)
